@@ -2,6 +2,8 @@ import RModel.Driver.State
 import RModel.Driver.Ser
 import RModel.Driver.R64
 import RModel.Impl.Rep64
+import RModel.Impl.Rep64Agg
+import RModel.Impl.RepXform
 /-!
 roaring64 bucket-level exact-representation tie (model: `Impl/Rep64.lean`, Go side: `harness/l2r64.go`).
 
@@ -16,14 +18,15 @@ roaring64 bucket-level exact-representation tie (model: `Impl/Rep64.lean`, Go si
   4. for well-formed operands (`Rep64.wf`): `render64 (Rep64.<op> rx ry)` is literally the third token (same keys, which
      buckets were dropped, flags, every inner bitmap container by container), and the result is well-formed.
 * `l2flip64 z x lo hi` (static `Flip`) and `l2range64 <add|remove|flip> x lo hi` (in place): same checks 1–3 with the L1
-  `flipRange / addRange / removeRange`; check 4 is the exact bucket STRUCTURE: switch, keys, bucket flags, buckets outside
-  the key range of `[lo, hi)` literally equal (container by container), buckets inside the key range equal as SETS (the
-  32-bit range functions are not modelled at L2; the checker instantiates `Ops32` with `viaSet`, which rebuilds a bucket
-  from the L1 result), and the result is well-formed.
+  `flipRange / addRange / removeRange`; check 4 first compares the bucket STRUCTURE (switch, keys, bucket flags, buckets outside
+  the key range of `[lo, hi)` literally, buckets inside it as sets — `Ops32.viaSet`; this yields the readable message) and then
+  the WHOLE representation literally, with the 32-bit layer instantiated by the exact models (`Ops32.exact` = `Rep.flip /
+  addRange / removeRange / iand / ior / iandNot` of `Impl/RepMut.lean`; for the static `Flip` the 32-bit static `Rep.flipStatic`
+  of `Impl/RepXform.lean`), and the result is well-formed.
 * `l2iop64 <and|or|xor|andnot> x y` (in place; Go prints `<repr64 x> <repr64 y> <repr64 x after> <repr64 y after>`): checks
   1–2 as above; the argument denotes the same set afterwards; for well-formed operands the exact bucket structure of the
   receiver (`Rep64.iand / ior / ixor / iandNot`: switch, keys, flags, buckets of one side only literally — untouched or
-  cloned —, equal-key buckets as sets for `and / or / andnot` (in-place 32-bit functions: parameter) and LITERALLY for `xor`
+  cloned —, equal-key buckets as sets and then LITERALLY for `and / or / andnot` (`Ops32.exact`) and LITERALLY for `xor`
   (static `roaring.Xor`, `Rep.xor2`)), well-formed result, and the argument afterwards literally (`Rep64.argAfter`: `or` /
   `xor` flag the appended tail buckets when both switches are on).  `x.Xor(x)` is `Clear()`.
 The model state of `z` / `x` becomes the L1 result.
@@ -207,7 +210,12 @@ def stepL2R64 (st : St) (cmd : List String) (got : String) : Option (St × Verdi
               let (kLo, kHi) := if lo < hi then (lo / 4294967296, hi / 4294967296) else (1, 0)
               match sameStructure kLo kHi m rz with
               | some e => some ("L2 bucket structure of static Flip: " ++ e)
-              | none => failIf (!rz.wf) "well-formed result of static Flip on a well-formed operand"
+              | none =>
+                if !rz.wf then some "well-formed result of static Flip on a well-formed operand"
+                else
+                  -- the touched buckets literally: the 32-bit layer instantiated with the exact `RepMut` models (`Ops32.exact`)
+                  let lit := renderRep64 (Rep64.sflip { Ops32.exact with flip := Rep.flipStatic } rx lo hi)
+                  failIf (lit != rzS) ("L2 exact (32-bit layer = exact static Flip model) static Flip = " ++ lit.take 400)
             else none
           some (st', firstFail [
             failIf (rx.toBSetFast != sx) ("abs(repr64 " ++ x ++ ")=" ++ digest sx),
@@ -242,7 +250,11 @@ def stepL2R64 (st : St) (cmd : List String) (got : String) : Option (St × Verdi
                 let (kLo, kHi) := if lo < hi then (lo / 4294967296, kHi0) else (1, 0)
                 match sameStructure kLo kHi m rz with
                 | some e => some ("L2 bucket structure of in-place " ++ op ++ ": " ++ e)
-                | none => failIf (!rz.wf) ("well-formed result of in-place " ++ op ++ " on a well-formed operand")
+                | none =>
+                  if !rz.wf then some ("well-formed result of in-place " ++ op ++ " on a well-formed operand")
+                  else
+                    let lit := renderRep64 (f2 Ops32.exact rx lo hi)
+                    failIf (lit != rzS) ("L2 exact (Ops32.exact) in-place " ++ op ++ " = " ++ lit.take 400)
               else none
             some (st', firstFail [
               failIf (rx.toBSetFast != sx) ("abs(repr64 " ++ x ++ ")=" ++ digest sx),
@@ -279,7 +291,17 @@ def stepL2R64 (st : St) (cmd : List String) (got : String) : Option (St × Verdi
                 match sameStructureP touched m rx2 with
                 | some e => some ("L2 bucket structure of in-place " ++ op ++ ": " ++ e)
                 | none =>
+                  -- the touched buckets literally: the 32-bit layer instantiated with the exact in-place models (`Ops32.exact`)
+                  let litM : Rep64 :=
+                    if x == y && op == "xor" then {} else
+                    match op with
+                    | "and" => Rep64.iand Ops32.exact rx ry
+                    | "or" => Rep64.ior Ops32.exact rx ry
+                    | "andnot" => Rep64.iandNot Ops32.exact rx ry
+                    | _ => m
+                  let lit := renderRep64 litM
                   if !rx2.wf then some ("well-formed result of in-place " ++ op ++ " on well-formed operands")
+                  else if x != y && lit != rx2S then some ("L2 exact (Ops32.exact) in-place " ++ op ++ " = " ++ lit.take 400)
                   else if x == y then failIf (ry2S != rx2S) "same object: both names show the result"
                   else
                     -- a flagged equal-key bucket of the receiver is `Clone()`d by getWritableContainerAtIndex; when that
